@@ -246,7 +246,7 @@ MANIFEST = dict(
              '(item_buffer unit validated per run by the selftest differential), cbmc.',
 )
 OUTSIDE = [
-  'several threads calling into one aggregator-based node at once (buffer/queue/priority/sequencer nodes, join ports fed concurrently): the aggregator is replaced by its uncontended behaviour. Concurrent callers ARE covered for the spin_mutex-guarded nodes: overwrite_node / write_once_node try_put (2 threads quick, 3 thorough) and limiter_node put-vs-decrement / put-vs-put (2 threads, thorough); and the limiter's pull-mode hand-shake (forwarder in flight vs re-registering successor / decrement, 2 threads, thorough); not covered concurrently: overwrite try_get/register_successor/clear racing a put, limiter pull mode with more than one predecessor item / several forwarders running at once / register_predecessor racing, continue_receiver, broadcast_node / split_node / indexer_node successor caches (spin_rw_mutex)',
+  'several threads calling into one aggregator-based node at once (buffer/queue/priority/sequencer nodes, join ports fed concurrently): the aggregator is replaced by its uncontended behaviour. Concurrent callers ARE covered for the spin_mutex-guarded nodes: overwrite_node / write_once_node try_put (2 threads quick, 3 thorough) and limiter_node put-vs-decrement / put-vs-put (2 threads, thorough); and the limiter pull-mode hand-shake (forwarder in flight vs re-registering successor / decrement, 2 threads, thorough); not covered concurrently: overwrite try_get/register_successor/clear racing a put, limiter pull mode with more than one predecessor item / several forwarders running at once / register_predecessor racing, continue_receiver, broadcast_node / split_node / indexer_node successor caches (spin_rw_mutex)',
   'join_node with key_matching / tag_matching policy (hash buffers, key count table) and joins with more than 2 ports',
   'limiter_node: a decrement delivered synchronously on the thread that is forwarding (lightweight successor feeding the decrementer) while the limiter holds a cached predecessor and count+tries < threshold: '
   'the real code self-deadlocks on broadcast_cache\'s spin_rw_mutex (liveness defect, reproducer props/C15/repro_limiter_selfdeadlock.cpp); these scenarios are not generated',
